@@ -421,6 +421,152 @@ func runC20(c *Ctx) {
 		}
 	}()
 
+	// ---- C20.scale
+	rule = "C20.scale"
+	c.R.Rule(rule, "Precision.Scale() is the tick length in nanoseconds, 10^(9-p): recognised as (a) the accumulation loop d = 1; for i = 9; i > p; i-- { d *= 10 } - initial value 1, factor 10, counter from 9 down to p exclusive - or (b) a lookup in a package-level table whose literal is folded and compared entry by entry with 10^(9-i), i = 0..9; any other form is undecided")
+	func() {
+		sc := p.Method(core.PkgProto, "Precision", "Scale")
+		if !c.must(p, "proto.Precision.Scale", sc != nil) {
+			return
+		}
+		key := "proto.(Precision).Scale"
+		pow := func(n int64) int64 {
+			r := int64(1)
+			for ; n > 0; n-- {
+				r *= 10
+			}
+			return r
+		}
+		// (b) table form
+		for _, b := range sc.Blocks {
+			for _, in := range b.Instrs {
+				ia, ok := in.(*ssa.IndexAddr)
+				if !ok {
+					continue
+				}
+				g, ok := ia.X.(*ssa.Global)
+				if !ok {
+					continue
+				}
+				if _, isParam := stripConv(ia.Index).(*ssa.Parameter); !isParam {
+					c.R.Unk(rule, key, cfg, p.Pos(ia.Pos()), "table index is not the precision itself")
+					return
+				}
+				tbl := map[int64]int64{}
+				if init := g.Pkg.Func("init"); init != nil {
+					for _, ib := range init.Blocks {
+						for _, ii := range ib.Instrs {
+							st, ok := ii.(*ssa.Store)
+							if !ok {
+								continue
+							}
+							ea, ok := st.Addr.(*ssa.IndexAddr)
+							if !ok || ea.X != ssa.Value(g) {
+								continue
+							}
+							i, ok1 := core.ConstInt(ea.Index)
+							v, ok2 := core.ConstInt(st.Val)
+							if ok1 && ok2 {
+								tbl[i] = v
+							}
+						}
+					}
+				}
+				var wrong []string
+				for i := int64(0); i <= 9; i++ {
+					if tbl[i] != pow(9-i) {
+						wrong = append(wrong, sprintf("[%d] = %d, want %d", i, tbl[i], pow(9-i)))
+					}
+				}
+				if len(wrong) > 0 {
+					c.R.Bad(rule, key, cfg, p.Pos(ia.Pos()), "scale table "+g.Name()+": "+strings.Join(wrong, "; ")+" - DateTime64 values of that precision are off by a power of ten")
+				} else {
+					c.R.Ok(rule, key, cfg, p.Pos(ia.Pos()), "table "+g.Name()+"[p] = 10^(9-p) for p = 0..9")
+				}
+				return
+			}
+		}
+		// (a) loop form
+		var acc, ctr *ssa.Phi
+		for _, b := range sc.Blocks {
+			for _, in := range b.Instrs {
+				ph, ok := in.(*ssa.Phi)
+				if !ok || len(ph.Edges) != 2 {
+					continue
+				}
+				for i, e := range ph.Edges {
+					bo, ok := e.(*ssa.BinOp)
+					if !ok || bo.X != ssa.Value(ph) {
+						continue
+					}
+					k, okk := core.ConstInt(bo.Y)
+					k0, ok0 := core.ConstInt(ph.Edges[1-i])
+					if !okk || !ok0 {
+						continue
+					}
+					if bo.Op == token.MUL && k == 10 && k0 == 1 {
+						acc = ph
+					}
+					if bo.Op == token.SUB && k == 1 && k0 == 9 {
+						ctr = ph
+					}
+				}
+			}
+		}
+		if acc == nil || ctr == nil {
+			c.R.Unk(rule, key, cfg, p.Pos(sc.Pos()), "neither the accumulation loop (1, *10, counter 9 downwards) nor a table lookup recognised")
+			return
+		}
+		// loop test: ctr > p ; result: acc
+		okCond, okRet := false, false
+		for _, b := range sc.Blocks {
+			for _, in := range b.Instrs {
+				switch x := in.(type) {
+				case *ssa.If:
+					if bo, ok := x.Cond.(*ssa.BinOp); ok {
+						_, yParam := stripConv(bo.Y).(*ssa.Parameter)
+						_, xParam := stripConv(bo.X).(*ssa.Parameter)
+						if bo.Op == token.GTR && bo.X == ssa.Value(ctr) && yParam || bo.Op == token.LSS && bo.Y == ssa.Value(ctr) && xParam {
+							okCond = b.Succs[0] != nil
+						}
+					}
+				case *ssa.Return:
+					if len(x.Results) == 1 && x.Results[0] == ssa.Value(acc) {
+						okRet = true
+					}
+				}
+			}
+		}
+		if okCond && okRet {
+			c.R.Ok(rule, key, cfg, p.Pos(sc.Pos()), "d = 1; 9-p multiplications by 10")
+		} else {
+			c.R.Bad(rule, key, cfg, p.Pos(sc.Pos()), sprintf("accumulation loop found but its bound (counter > precision: %v) or its result (returns the accumulator: %v) is not the expected one: Scale() != 10^(9-p)", okCond, okRet))
+		}
+	}()
+
+	// ---- C20.ipinverse
+	rule = "C20.ipinverse"
+	c.R.Rule(rule, "effect whitelist for the IP helpers: IPv6.ToIP / ToIPv6 and IPv4.ToIP / ToIPv4 call nothing but the bijective constructors and accessors of net/netip (AddrFrom16 / As16, AddrFrom4 / As4) and fixed-width encoding/binary accessors: a normalising call (Unmap, WithZone, Prefix...) maps distinct values to one and the pair stops being inverse for those inputs")
+	func() {
+		allowed := map[string]bool{"AddrFrom16": true, "As16": true, "AddrFrom4": true, "As4": true, "Uint32": true, "PutUint32": true}
+		n := 0
+		for _, tn := range []string{"IPv6", "IPv4"} {
+			for _, mn := range []string{"ToIP"} {
+				if fn := p.Method(core.PkgProto, tn, mn); fn != nil {
+					n++
+					ruleIPCalls(c, p, rule, fn, allowed)
+				}
+			}
+		}
+		for _, fnm := range []string{"ToIPv6", "ToIPv4"} {
+			if fn := p.Func(core.PkgProto, fnm); fn != nil {
+				n++
+				ruleIPCalls(c, p, rule, fn, allowed)
+			}
+		}
+		c.R.Floor(rule, cfg, n, 4)
+	}()
+
 	// ---- C20.family
 	rule = "C20.family"
 	c.R.Rule(rule, "no conversion between distinct temporal scalar types (Date, Date32, DateTime, DateTime64) inside the column methods: a Date32 column that goes through the 16-bit Date helper wraps every day outside 1970..2149")
@@ -509,4 +655,37 @@ func binaryOrder(fn *ssa.Function) (string, string) {
 		}
 	}
 	return "", ""
+}
+
+func stripConv(v ssa.Value) ssa.Value {
+	for {
+		switch x := v.(type) {
+		case *ssa.Convert:
+			v = x.X
+		case *ssa.ChangeType:
+			v = x.X
+		default:
+			return v
+		}
+	}
+}
+
+func ruleIPCalls(c *Ctx, p *core.Program, rule string, fn *ssa.Function, allowed map[string]bool) {
+	cfg := p.Cfg.Name
+	key := core.FuncName(fn)
+	for _, call := range core.Calls(fn) {
+		f := core.CalleeFunc(call)
+		if f == nil {
+			if _, isBuiltin := call.Common().Value.(*ssa.Builtin); isBuiltin {
+				continue
+			}
+			c.R.Unk(rule, key, cfg, p.Pos(call.Pos()), "dynamic call in an IP conversion helper")
+			return
+		}
+		if !allowed[f.Name()] {
+			c.R.Bad(rule, key, cfg, p.Pos(call.Pos()), "calls "+f.FullName()+": not one of the bijective netip / binary accessors, so distinct addresses can map to the same result (e.g. Unmap turns ::ffff:a.b.c.d into the 4-byte a.b.c.d) and the To*/From* pair no longer round-trips")
+			return
+		}
+	}
+	c.R.Ok(rule, key, cfg, p.Pos(fn.Pos()), "only bijective accessors")
 }
